@@ -19,6 +19,18 @@ def tev : Call → Option TEv
 
 def tevs (h : List Call) : List TEv := h.filterMap tev
 
+@[simp] theorem tev_run : tev .startTestRun = some .run := rfl
+@[simp] theorem tev_stopRun : tev .stopTestRun = none := rfl
+@[simp] theorem tev_start (t : Nat) : tev (.startTest t) = some (.start t) := rfl
+@[simp] theorem tev_stop (t : Nat) : tev (.stopTest t) = some (.stop t) := rfl
+@[simp] theorem tev_tags (n g : TagSet) : tev (.tags n g) = some (.tags n g) := rfl
+@[simp] theorem tev_add (k : Kind) (t : Nat) (a : Arg) : tev (.add k t a) = some (.out t) := rfl
+@[simp] theorem tev_time (d : TimeV) : tev (.time d) = none := rfl
+@[simp] theorem tev_stopc : tev .stop = none := rfl
+@[simp] theorem tev_done : tev .done = none := rfl
+@[simp] theorem tev_progress : tev .progress = none := rfl
+@[simp] theorem tev_setFailfast (b : Bool) : tev (.setFailfast b) = none := rfl
+
 theorem tevs_append (a b : List Call) : tevs (a ++ b) = tevs a ++ tevs b := by simp [tevs]
 
 /-- the stack-of-sets semantics on the small alphabet -/
